@@ -236,7 +236,8 @@ fn law_cases(w: &mut impl Write, id: &mut usize, rng: &mut Rng, count: usize) {
                 desc = format!("{kind} axis {a:?} angle {angle} center {c:?}");
             }
             _ => {
-                let (r, o) = (rng.range(1.0, 4.0), rng.range(-2.0, 2.0));
+                // the window that is repeated is [offset - radius, offset + radius): also far from the origin
+                let (r, o) = (rng.range(0.5, 4.0), if rng.below(2) == 0 { rng.range(-2.0, 2.0) } else { rng.range(-15.0, 15.0) });
                 ttree = RepeatX { shape: stree.clone(), radius: r, offset: o }.into();
                 inv = Box::new(move |p| {
                     let (r, o) = (r as f64, o as f64);
